@@ -286,7 +286,8 @@ def arpa_stream(ctx, hexe, dexe, c01h, c01d, n_base, per_base, oracle_budget):
             with open(path, "wb") as f:
                 f.write(data)
             items.append({"id": jid, "kind": kind, "path": path, "data": data, "mult": ctx.rng.choice(MULTS), "mem": 0,
-                          "classes": [ctx.rng.choice("PPR"), ctx.rng.choice("TAQB")], "queries": case.queries, "abits": case.abits})
+                          "classes": list("PRTAQB") if "empty-order" in kind else [ctx.rng.choice("PPR"), ctx.rng.choice("TAQB")],
+                          "queries": case.queries, "abits": case.abits})
     ctx.notes["arpa_mutants"] = len(items)
     return evaluate_arpa(ctx, hexe, dexe, c01h, c01d, work, items, oracle_budget, tag="arpa")
 
